@@ -236,6 +236,9 @@ def rule_guards(ctx):
         ("SELECT", False, True, (90105, "22000")),
         ("SELECT", True, True, None),
         ("SELECT qualified", False, False, None),
+        ("SELECT qualified subquery in projection", False, False, (90105, "22000")),
+        ("SELECT qualified subquery in projection", True, False, (90106, "22000")),
+        ("SELECT qualified FROM unqualified JOIN", False, False, (90105, "22000")),
         ("INSERT", False, False, (90105, "22000")),
         ("CREATE TABLE", True, False, (90106, "22000")),
         ("CREATE SCHEMA", False, False, (90105, "22000")),
@@ -290,7 +293,14 @@ def rule_own_context(ctx):
         "SHOW TERSE OBJECTS IN DATABASE": (), "SHOW PRIMARY KEYS": ("CUR_DB",), "SHOW UNIQUE KEYS": ("CUR_DB",),
         "SHOW IMPORTED KEYS": ("CUR_DB",), "COMMENT ON TABLE": ("CUR_DB", "CUR_SCHEMA"),
         "CREATE TABLE varchar+comment": ("CUR_DB", "CUR_SCHEMA"), "ALTER TABLE ADD COLUMN": ("CUR_DB", "CUR_SCHEMA"),
+        "ALTER TABLE SET COMMENT": ("CUR_DB", "CUR_SCHEMA"),
     }
+    # the same statements at the two other qualification levels: a given part is used as given, a missing one comes
+    # from the context ("an unqualified or schema-qualified object name ... denotes exactly the object the fully
+    # qualified name built from that context denotes")
+    for kind in ("DESCRIBE TABLE", "COMMENT ON TABLE", "CREATE TABLE varchar+comment", "ALTER TABLE ADD COLUMN", "ALTER TABLE SET COMMENT"):
+        want[kind + " @schema"] = ("CUR_DB", "S9")
+        want[kind + " @full"] = ("D9", "S9")
     for kind, names in want.items():
         for tr in traces(prog, kind):
             if tr.path.outcome != "return":
@@ -310,6 +320,10 @@ def rule_own_context(ctx):
                         texts.append(text_of(ex.args["this"]))
             alltext = "\n".join(texts)
             missing = [nm for nm in names if "{" + nm + "}" not in alltext]
+            # each generated statement that names the target table must itself carry the whole resolved name
+            for t in texts:
+                if "{T}" in t and names and any("{" + h + "}" in t for h in ("CUR_DB", "CUR_SCHEMA", "S9", "D9")):
+                    missing += [nm for nm in names if "{" + nm + "}" not in t and nm not in missing]
             foreign = [h for h in ("{old_", "{OTHER") if h in alltext]
             ok = not missing
             ctx.ob("C03.e", f"{kind}: generated SQL is filled with the connection's own {'/'.join(names) or 'context'}", ok,
@@ -319,7 +333,7 @@ def rule_own_context(ctx):
                               "fakesnow/cursor.py",
                               f"the statement generated for {kind} does not carry the issuing connection's "
                               f"{' and '.join(missing)}: an unqualified name would not resolve against this session's context")
-    ctx.floor("C03.e traces", n, 8)
+    ctx.floor("C03.e traces", n, 16)
 
 
 from .c14 import rule_typestate as rule_connect_context  # noqa: E402  (the context set at connect is part of C03)
